@@ -110,10 +110,13 @@ def _fold(e: ast.AST, env: dict, tba):
                 raise _NoFold("target")
             out.append(_fold(e.elt, env2, tba))
         return out
-    if isinstance(e, ast.Call) and not e.keywords:
+    if isinstance(e, ast.Call) and (not e.keywords or (isinstance(e.func, ast.Name) and e.func.id == "zip" and all(
+            k.arg == "strict" and isinstance(k.value, ast.Constant) for k in e.keywords))):
         f = e.func
         args = [_fold(a, env, tba) for a in e.args]
         name = f.id if isinstance(f, ast.Name) else None
+        if name == "zip" and e.keywords and e.keywords[0].value.value and len({len(a) for a in args}) > 1:
+            raise _NoFold("zip(strict=True) of unequal lengths")
         try:
             if name == "bytes" and len(args) == 1:
                 return bytes(args[0])
@@ -233,7 +236,18 @@ def _k1(ctx: Context) -> None:
     rets = [x for x in walk_own(df.node) if isinstance(x, ast.Return)]
     va = df.node.args.vararg.arg if df.node.args.vararg is not None else "data"
     ok = len(rets) == 1 and ast.dump(expand(df.node, rets[0].value)) == ast.dump(ast.parse(f"self.h(b''.join({va})).digest()", mode="eval").body) and df.node.args.vararg is not None
-    ck.check("C02.K1", ok, "digest(*data) = h(concatenation of data).digest()", f"{ctx.fkey(df)}:shape", f"Srp.digest is `{_u(rets[0].value) if rets else ''}`", df.loc())
+    if not ok and df.node.args.vararg is not None:
+        # the same digest computed incrementally: x = self.h(); for c in data: x.update(c); return x.digest()
+        body = [st for st in df.node.body if not (isinstance(st, ast.Expr) and isinstance(st.value, ast.Constant))]
+        if len(body) == 3 and isinstance(body[0], ast.Assign) and len(body[0].targets) == 1 and isinstance(body[0].targets[0], ast.Name) and isinstance(body[1], ast.For) \
+                and isinstance(body[2], ast.Return) and not body[1].orelse and len(body[1].body) == 1 and isinstance(body[1].target, ast.Name):
+            hv, cv = body[0].targets[0].id, body[1].target.id
+            ok = (_u(body[0].value) == "self.h()" and _u(body[1].iter) == va and _u(body[1].body[0]) == f"{hv}.update({cv})" and _u(body[2].value) == f"{hv}.digest()")
+    if ok:
+        ck.holds("C02.K1", "digest(*data) = h(concatenation of data).digest()", df.loc())
+    else:
+        # a differently written digest is not compared here: not decided (the formulas that use it are compared by T2)
+        ck.unknown("C02.K1", f"Srp.digest is written in a form this rule does not read (`{_u(rets[0].value) if rets else ''}`): not decided", df.loc())
     # pad_left / to_byte_array
     pf = ctx.func(f"{SRPM}.pad_left")
     rets = [x for x in walk_own(pf.node) if isinstance(x, ast.Return)]
@@ -549,6 +563,11 @@ def _w1(ctx: Context) -> None:
                 names = ctx.callee_names(f, c)
                 if any(x.startswith(SRPM + ".") for x in names):
                     used.setdefault(c.func.attr, n)
+                else:
+                    # by value: the receiver is the client constructed in this function (through a tuple returned by a helper ..)
+                    rt = strip_sites(T.of(cfg, n, c.func.value))
+                    if rt[0] == "call" and rt[1] in (("glob", CLI), ("glob", CLI + ".__init__")):
+                        used.setdefault(c.func.attr, n)
     ck.require_min("C02.W1", "SRP client methods used by pair-setup", len(used), 5)
     for m, n in sorted(used.items()):
         ck.check("C02.W1", m in allowed, f"pair-setup uses SrpClient.{m} (byte-level API)", f"{ctx.fkey(f)}:srp-api:{m}",
@@ -558,8 +577,10 @@ def _w1(ctx: Context) -> None:
            if isinstance(x, ast.Call) and (ctx.resolve_name(g, x.func) or "").endswith("to_byte_array")]
     ck.check("C02.W1", not tba, "the protocol module never converts SRP integers to bytes itself", "aiohomekit.protocol:to_byte_array", "the protocol module calls to_byte_array (minimal-length bytes) itself", f.loc())
     # exactly one client per exchange, built from ("Pair-Setup", pin)
-    ctors = [x for x in walk_own(f.node) if isinstance(x, ast.Call) and ctx.resolve_name(f, x.func) == CLI]
-    ok = len(ctors) == 1 and len(ctors[0].args) == 2 and ctx.const(f, ctors[0].args[0], None) == "Pair-Setup" and _u(ctors[0].args[1]) == f.pos_params[0]
+    ctors = [(n, x) for n in cfg.nodes for x in ctx.calls(n) if ctx.resolve_name(f, x.func) == CLI]
+    # by value: the setup code may reach the constructor through a temporary / the parameter of an inlined helper
+    ok = len(ctors) == 1 and len(ctors[0][1].args) == 2 and strip_sites(T.of(cfg, ctors[0][0], ctors[0][1].args[0])) == ("const", "Pair-Setup") \
+        and strip_sites(T.of(cfg, ctors[0][0], ctors[0][1].args[1])) == ("param", f.pos_params[0])
     ck.check("C02.W1", ok, "one SrpClient('Pair-Setup', pin) per exchange", f"{ctx.fkey(f)}:client", "pair-setup does not build exactly one SrpClient('Pair-Setup', <the setup code>)", f.loc())
 
 
